@@ -175,12 +175,67 @@ def drivable():
         return f"{type(e).__name__}: {e}", None
 
 
+def node_level_patterns(res: Result, tier: str) -> list:
+    """The whole real node (virtual sockets, worker threads run on demand: harness/sim.py), three answers queued on one
+    connection, under every script of 1..3 send() outcomes over {1, 7, 40 bytes accepted, EAGAIN, EINTR, ENOBUFS} (each
+    send() call takes the next outcome, whichever round of the I/O loop it is made in; afterwards everything is accepted):
+    the bytes the socket accepted are those it accepts without a script."""
+    import itertools
+    import sim as simmod
+    import nodegen
+    cfg = ("host=node.local;realm=realm.local;idle=30;cea=4;dwa=4;peer:peer1.x,realm.local,0,0,30,1,0,-,-,-,-;"
+           "app:4,1,0,b,0,0,-")
+    pre = ["start", "acc", "rx 0 " + nodegen.cer("peer1.x", "4", 11, 12)]
+    burst = "rx 0 " + " ".join(nodegen.dwr(31 + 2 * i, 32 + 2 * i) for i in range(3))
+
+    def run_one(script):
+        sm = simmod.Sim(cfg)
+        try:
+            for ev in pre:
+                sm.event(ev)
+            sk = sm.sock(0)
+            base = len(sk.sent)
+            if script:
+                sm.event("wr 0 " + ",".join(script))
+            sm.event(burst)
+            for _ in range(6):
+                sm.event("tick")
+            return bytes(sk.sent[base:]), [l for l in sm.obs if l.startswith("CRASH")]
+        finally:
+            sm.close()
+    want, _ = run_one([])
+    alphabet = ["1", "7", "40", "soft", "softI", "softB"]
+    fails = []
+    n = 0
+    for ln in (1, 2, 3):
+        for script in itertools.product(alphabet, repeat=ln):
+            if tier == "quick" and ln == 3 and hash(script) % 3:
+                continue
+            n += 1
+            got, crashes = run_one(list(script))
+            if got != want or crashes:
+                fails.append({"what": "the bytes accepted by the socket are not the queued messages in order, each once (whole node, "
+                                      "send() outcomes scripted per call)", "kind": "node-level",
+                              "line": "NODE " + cfg + " | " + " | ".join(pre) + " | wr 0 " + ",".join(script) + " | " + burst + " | tick x6",
+                              "script": list(script), "real": got.hex()[:400], "expected": want.hex()[:400]})
+                if len(fails) >= 2:
+                    break
+        if fails:
+            break
+    res.count("node-level send() scripts", n)
+    res.cases += n
+    return fails
+
+
 def run(res: Result, tier: str, seed: int):
     why, probe_fail = drivable()
     if probe_fail is not None:
         probe_fail["script"] = ["all"]
         return [probe_fail], []          # (a single queued message already violates the property: that is the failing input)
     if why is not None:
+        nf = node_level_patterns(res, tier)
+        if nf:
+            return nf, []
         # (reported as a broken correspondence: the program the proofs are about is not the one that runs)
         return [], [{"line": "WPATH (one message, script [all])", "real": "the write path cannot be driven: " + why[:300],
                      "model": "message written"}]
@@ -215,6 +270,7 @@ def run(res: Result, tier: str, seed: int):
             res.count(f"schedules bound {b}", runs)
             if len(fails) >= 5:
                 break
+    fails += node_level_patterns(res, tier)
     # random schedules, random scripts
     for _ in range(150 if tier == "quick" else 4000):
         n = rng.randrange(2, 7)
